@@ -223,13 +223,14 @@ CLAIMS["C03"] = (
     "unmapped_gets_generated_key, skip_beats_only, only_restricts, earlier_overlay_wins, earlier_map_entries_first. Crown: "
     "C03_layout_puts_every_field_at_its_path - for EVERY shape and stack of providers, whenever the layout is accepted "
     "every presented field is found in the built (and re-ordered) crown at exactly its path. Behaviour, for every crown and "
-    "datum: C03_loader_reads_exact_paths (DISABLE / FIRST: a successful load took each field from exactly its path, or the "
-    "default of an optional field whose key is absent, and nothing else), C03_dumper_writes_exact_paths (every field at that "
+    "datum: C03_load_reads_exact_paths (all three debug modes: a successful load took each field from exactly its path, or the "
+    "default of an optional field whose key is absent, and nothing else), C03_load_dump_roundtrip (loading what the dumper "
+    "wrote gives back every field and no extras, omit_default included), C03_dumper_writes_exact_paths (every field at that "
     "path, left out exactly when its sieve applies and value == default; list gaps None), extras: collect / forbid / skip "
     "exactness. Tied to the code per generated program: the library's loader (3 debug modes) and dumper against the model "
     "on inputs with every mapped key present / absent / ill-typed, extra keys at every node, wrong-kind containers, objects "
     "equal to own / other fields' defaults; plus a sentinel oracle from an independent restatement of the documented rules.",
-    "Trusted: Coq kernel, renderers. ALL mode is modelled and compared but has no theorem of its own; fields are strict ints "
+    "Trusted: Coq kernel, renderers. The error side of the three modes is modelled and compared, not proved; fields are strict ints "
     "(their contents is C02's), dataclass models only (other kinds: C17), predicates in map / skip / only are field names. "
     "Known finding: collected extras mirror nested nodes with empty mappings under known keys (pinned by the suite).",
     "DESIGN.md section 5 C03", TECH)
